@@ -175,7 +175,21 @@ func withAxioms(asserts []*Term) []*Term {
 func (o *Obligation) baseAsserts() []*Term {
 	var facts []*Term
 	if o.exec != nil {
-		facts = o.exec.facts[:o.NFacts]
+		all := o.exec.facts[:o.NFacts]
+		if o.Block >= 0 && o.exec.fn != nil {
+			// only facts established on the way to this block can matter
+			for i, f := range all {
+				fb := -1
+				if i < len(o.exec.factBlock) {
+					fb = o.exec.factBlock[i]
+				}
+				if fb < 0 || o.exec.canReach(fb, o.Block) {
+					facts = append(facts, f)
+				}
+			}
+		} else {
+			facts = all
+		}
 	}
 	neg := Not(o.Goal)
 	seeds := []*Term{o.Guard, neg}
